@@ -214,9 +214,29 @@ class AppCfgMgr:
             _LOGGER.debug('Inactive in deleted event handler.')
             return
 
+        elif self._is_running(event_file):
+            # Stale event, the instance was placed again and the container of
+            # the new cache entry is the one that is running.
+            _LOGGER.warning('Stale deleted event on %r', instance_name)
+            return
+
         else:
             self._terminate(instance_name)
             self._refresh_supervisor()
+
+    def _is_running(self, event_file):
+        """Check if the container of the cache entry is the running one.
+        """
+        try:
+            container = appcfg.eventfile_unique_name(event_file)
+        except OSError:
+            # No such cache entry.
+            return False
+        running_link = os.path.join(self.tm_env.running_dir,
+                                    os.path.basename(event_file))
+        return os.path.basename(
+            self._resolve_running_link(running_link)
+        ) == container
 
     def _first_sync(self):
         """Bring the appcfgmgr into active mode and do a first sync.
